@@ -14,7 +14,7 @@ GATES = {
               'layout:indented-comment': 2000, 'layout:blank-separated': 500, 'layout:mixed-class-adjacent': 300, 'layout:file-start': 500,
               'layout:file-end': 300, 'layout:after-last-meta-no-postings': 40, 'layout:before-dedent': 300, 'layout:nested-posting-meta': 100,
               'history_steps': 6000, 'handover_claims': 1500, 'manual_claims_judged': 2500, 'restore_checks': 800, 'idempotence_checks': 2500, 'parse_vs_later_checks': 2500,
-              'parse_vs_later_on_copy': 1000, 'empty_selection_calls': 2000, 'comments_given_to_owners': 1500, 'multi_comment_handovers': 60, 'restore_interleaving:explicit-list': 300, 'histories_continued_on_copy': 150},
+              'parse_vs_later_on_copy': 1000, 'restore_api_built': 2000, 'empty_selection_calls': 2000, 'comments_given_to_owners': 1500, 'multi_comment_handovers': 60, 'restore_interleaving:explicit-list': 300, 'histories_continued_on_copy': 150},
     'thorough': {'evaluations': 500000, 'layout:after-last-meta-no-postings': 800},
 }
 RULE = ('case = one document from the comment-layout generator (comment runs, matching or mismatching indentation, adjacent above / below / '
@@ -32,6 +32,9 @@ RULE = ('case = one document from the comment-layout generator (comment runs, ma
 ASSUMPTIONS = ['"no comment unowned after default parsing" is asserted for File targets only (a single-model target has no standalone slot)',
                'where the documentation is silent (outermost vs innermost model; an entry\'s extent when comments close or open its '
                'indented block) every reading is accepted']
+
+
+KF_BEYOND = 'released-comment-beyond-model-extent'
 
 
 def layout_counters(col, text, exp, toks):
@@ -105,6 +108,26 @@ def rules_check(col, root, text, wit, file_target=True):
                     col.violation('rule:standalone-outside-holder', f'{tk!r} is an entry of {parent} but lies outside the extent of {holder}', wit)
                     return False
     return exp, toks
+
+
+
+def _pinned_beyond(col):
+    """Pinned witness of the known finding released-comment-beyond-model-extent."""
+    P = common.parser()
+    f = P.parse('2000-01-01 *\n  Assets:A 1 USD\n    bb: 0\n', models.File)
+    w = f.directives[0].postings[0].raw_meta_with_comments
+    w.append(models.BlockComment.from_value('tail', indent='    '))
+    before = attribution.ownership_map(f)
+    un = w.unclaim_interleaving_comments()
+    col.ev()
+    try:
+        w.claim_interleaving_comments(un)
+        ok = attribution.ownership_map(f) == before
+    except ValueError:
+        ok = False
+    if not ok:
+        col.violation(KF_BEYOND, 'posting.raw_meta_with_comments: append(comment); unclaim_interleaving_comments(); claim_interleaving_comments(<the same>) '
+                                 'does not give the comment back to the list', {'text': '2000-01-01 *\n  Assets:A 1 USD\n    bb: 0\n'})
 
 
 def run_case(col, r, idx):
@@ -233,6 +256,42 @@ def run_case(col, r, idx):
                 col.violation('empty-selection-changed-attribution', f'{p}: unclaim_interleaving_comments([]) / claim_interleaving_comments(()) returned '
                               f'{got!r} or changed the ownership map', wit)
                 return
+        # the same restore rule on a standalone comment that was put into a list through the API (at the start, in the middle, at the
+        # end): release it, claim it back
+        fb = P.parse(text, models.File)
+        wb = [(p, m, getattr(m, a)) for p, m in walker.tree_models(fb) for a, d, k in ops.catalog(type(m)) if k == 'raw_list_comments']
+        if wb:
+            p, m, w = r.choice(wb)
+            first = next((x for x in w if hasattr(x, 'indent')), None)
+            ind = first.indent if first is not None else ('' if isinstance(m, models.File) else '    ')
+            c = models.BlockComment.from_value('put here', indent=ind)
+            pos = r.choice([0, len(w), len(w) // 2])
+            try:
+                w.insert(pos, c)
+                before = attribution.ownership_map(fb)
+                w.unclaim_interleaving_comments([c])
+                st = fb.token_store
+                outside = st.get_index(c) > st.get_index(m.last_token) or st.get_index(c) < st.get_index(m.first_token)
+                explicit = r.random() < 0.5
+                try:
+                    w.claim_interleaving_comments([c]) if explicit else w.claim_interleaving_comments()
+                    raised = None
+                except ValueError as e:
+                    raised = e
+                col.ev()
+                col.count('restore_api_built')
+                if raised is not None or attribution.ownership_map(fb) != before:
+                    where = 'start' if pos == 0 else 'end' if pos == len(w) - 1 or pos >= len(w) else 'middle'
+                    mech = KF_BEYOND if outside else f'restore:api-built-comment:{where}'
+                    col.violation(mech, f'{p}: a comment inserted at the {where} of the list, released with unclaim_interleaving_comments([c]) and '
+                                  f'claimed again ({"explicit list" if explicit else "no argument"}) ' +
+                                  (f'raised {raised}' if raised is not None else 'did not get its owner back') +
+                                  ('; once released it lies outside the extent of the model the list belongs to' if outside else ''),
+                                  dict(wit, path=p, position=pos))
+                    if not outside:
+                        return
+            except (ValueError, IndexError):
+                pass
         # histories of claim / unclaim / auto calls
         root = f_off if idx % 2 else P.parse(text, models.File, auto_claim_comments=False)
         mg = ops.MiscGenerator(r)
@@ -245,6 +304,7 @@ def run_case(col, r, idx):
                 col.count('multi_comment_handovers')
         pp.reverse()
         swap_at = r.randint(1, 8) if not pp and idx % 4 == 1 else -1
+        text_edited = False
         for s in range(max(r.randint(5, 15), len(pp))):
             if s == swap_at:
                 root = copy.deepcopy(root)          # the history continues on a copy taken mid-way
@@ -266,7 +326,9 @@ def run_case(col, r, idx):
                 log.append(op.desc)
             except ValueError as e:
                 log.append(op.desc + f' -> refused ({e})')
-            if mc is not None and want[1] != 'unknown':
+            if op.kind in ('claim:multi', 'claim:give-to-list', 'claim:give-to-model'):
+                text_edited = True       # comments were inserted: the adjacency table of the manual-claim oracle is built for parsed layouts
+            if mc is not None and want[1] != 'unknown' and not text_edited:
                 # a manual claim takes the comment on the adjacent line (same indentation class, no blank line) - wherever list
                 # placeholders happen to sit - or reports that it is already claimed; it never takes anything else
                 col.ev()
@@ -321,3 +383,6 @@ def run_case(col, r, idx):
             col.sample({'text': text, 'ownership': [list(map(list, o)) for o in base_map], 'history': log})
     finally:
         storemodel.set_load_factor(1000)
+
+
+PINNED = [(KF_BEYOND, _pinned_beyond)]
